@@ -352,7 +352,8 @@ def run(tier):
     authenticated_bytes(chk)
     mac_restart_sets_fill(chk)
     # CCM and EAX run on the CTR+CBC-MAC primitives: their counter carry chains decide the ciphertext (shared with C12)
-    from .c12 import counter_carry_chains, empty_chunk_is_identity, x86ni_counter_lanes
+    from .c12 import counter_carry_chains, empty_chunk_is_identity, x86ni_counter_lanes, ghash_pclmul_tail
+    ghash_pclmul_tail(chk)
     counter_carry_chains(chk)
     empty_chunk_is_identity(chk)
     x86ni_counter_lanes(chk)
